@@ -18,6 +18,11 @@ def main(run: Run):
     run.functions["amaranth_soc.wishbone.bus.Arbiter.elaborate"] = "per-configuration (bounded: N, features, granularities), all inputs/states/time"
     run.functions["amaranth_soc.wishbone.bus.Arbiter.add"] = "exercised (constructor refusals counted)"
     run_configs(run, __name__, cfgs)
+    from ..lean_check import status as _lean_status
+    run.extra["lean_lemmas"] = {"files": _lean_status(), "used": "Arbiter.lean: rank_decreases, served_within (all N, on the specification next-owner function)"}
+    for _f, _st in run.extra["lean_lemmas"]["files"].items():
+        if _st != "accepted":
+            run.assumptions.append(f"Lean lemma file {_f} is '{_st}': the SMT axioms it backs are TRUSTED in this run")
     return run.finish(
         explanation="Arbiter.elaborate contract with an observational owner predicate and the inductive invariant "
                     "'exactly one owner': exact next-owner function on every released cycle (closest requester after the owner, cyclically), "
